@@ -54,6 +54,12 @@ class QueryBase[T](ABC):
     def _common_conditions(self):
         """Add conditions common to all queries."""
 
+        # Start from a clean slate every time the SQL is built, so that
+        # building or running the same query object more than once does not
+        # accumulate (and, for random sampling, compound) conditions.
+        self._conditions = []
+        self._params = []
+
         if self.filter is not None:
             # Handle all filter conditions in one go here. The filter
             # conditions are on the flights table, which we alias as 'f' in the
